@@ -286,6 +286,127 @@ func genSR(r *vproto.Rng, kind string, f frame, lonG, latG float64) string {
 	return strings.Join(out, " ")
 }
 
+// twin returns a definition that differs from def in exactly one respect, so that the
+// `source.Equal(dest)` shortcut of NewTransform (nil transformer = identity) is probed field by
+// field: proj4js has no such shortcut, so a pair wrongly taken for identical shows as a missing
+// datum shift / scale / offset. kind names what was changed ("" = nothing applicable).
+func twin(r *vproto.Rng, def string, nodatum bool) (string, string) {
+	toks := strings.Fields(def)
+	find := func(prefix string) int {
+		for i, t := range toks {
+			if strings.HasPrefix(t, prefix) {
+				return i
+			}
+		}
+		return -1
+	}
+	proj := ""
+	if i := find("+proj="); i >= 0 {
+		proj = toks[i][6:]
+	}
+	bump := func(i int, d float64, prec int) {
+		eq := strings.Index(toks[i], "=")
+		v, _ := strconv.ParseFloat(toks[i][eq+1:], 64)
+		toks[i] = toks[i][:eq+1] + ff(rd(v+d, prec), prec)
+	}
+	for try := 0; try < 12; try++ {
+		switch r.Intn(9) {
+		case 0: // every towgs84 value redrawn, same number of terms
+			if i := find("+towgs84="); i >= 0 {
+				n := len(strings.Split(toks[i], ","))
+				toks[i] = towgs84(r, n)
+				return strings.Join(toks, " "), "towgs84-values"
+			}
+		case 1: // one towgs84 term changed in one digit
+			if i := find("+towgs84="); i >= 0 {
+				ps := strings.Split(toks[i][9:], ",")
+				k := r.Intn(len(ps))
+				v, _ := strconv.ParseFloat(ps[k], 64)
+				ps[k] = ff(rd(v+[]float64{1, -1, 0.1, 10}[r.Intn(4)], 4), 4)
+				toks[i] = "+towgs84=" + strings.Join(ps, ",")
+				return strings.Join(toks, " "), "towgs84-digit"
+			}
+		case 2: // semi-major axis by one metre (only where a datum shift makes the ellipsoid change defined)
+			if i := find("+a="); i >= 0 && find("+towgs84=") >= 0 && proj != "krovak" {
+				bump(i, 1, 3)
+				if j := find("+b="); j >= 0 {
+					bump(j, 1, 3) // keeps spheres spheres
+				}
+				return strings.Join(toks, " "), "a-1m"
+			}
+		case 3: // prime meridian added or changed
+			if proj != "krovak" {
+				if i := find("+pm="); i >= 0 {
+					toks = append(toks[:i], toks[i+1:]...)
+					return strings.Join(toks, " "), "pm-removed"
+				}
+				toks = append(toks, "+pm="+ff(rd((r.Float()-0.5)*4, 6), 6))
+				return strings.Join(toks, " "), "pm-added"
+			}
+		case 4: // scale factor
+			if proj == "merc" && find("+lat_ts=") >= 0 {
+				continue
+			}
+			if proj == "merc" || proj == "lcc" || proj == "tmerc" {
+				i := find("+k_0=")
+				if i < 0 {
+					i = find("+k=")
+				}
+				if i >= 0 {
+					bump(i, 0.0001, 6)
+				} else {
+					toks = append(toks, "+k_0=0.9999")
+				}
+				return strings.Join(toks, " "), "k0"
+			}
+		case 5: // units
+			if proj != "longlat" && proj != "krovak" && proj != "" {
+				i := find("+units=")
+				j := find("+to_meter=")
+				if j >= 0 {
+					bump(j, 0.01, 4)
+					return strings.Join(toks, " "), "to_meter"
+				}
+				if i >= 0 {
+					nu := map[string]string{"+units=ft": "+units=us-ft", "+units=us-ft": "+units=ft", "+units=m": "+units=ft"}[toks[i]]
+					toks[i] = nu
+				} else {
+					toks = append(toks, "+units=us-ft")
+				}
+				return strings.Join(toks, " "), "units"
+			}
+		case 6: // false easting by one metre
+			if i := find("+x_0="); i >= 0 {
+				bump(i, 1, 3)
+				return strings.Join(toks, " "), "x0-1m"
+			}
+		case 7: // named datum against its own shift written out with one digit changed
+			if i := find("+datum="); i >= 0 && !nodatum {
+				if e, ok := datumExplicit[strings.ToLower(toks[i][7:])]; ok {
+					toks[i] = e
+					return strings.Join(toks, " "), "datum-explicit-digit"
+				}
+			}
+		case 8: // origin latitude
+			if i := find("+lat_0="); i >= 0 && proj != "krovak" {
+				bump(i, 0.001, 6)
+				return strings.Join(toks, " "), "lat0"
+			}
+		}
+	}
+	return def, ""
+}
+
+// a few named datums written out (ellipsoid of the table row, first towgs84 term off by one)
+var datumExplicit = map[string]string{
+	"potsdam":       "+ellps=bessel +towgs84=607.0,23.0,413.0",
+	"hermannskogel": "+ellps=bessel +towgs84=654.0,-212.0,449.0",
+	"ggrs87":        "+ellps=GRS80 +towgs84=-198.87,74.79,246.62",
+	"rassadiran":    "+ellps=intl +towgs84=-132.63,-157.5,-158.62",
+	"osgb36":        "+ellps=airy +towgs84=447.448,-125.157,542.060,0.1502,0.2470,0.8421,-20.4894",
+	"nzgd49":        "+ellps=intl +towgs84=60.47,-5.04,187.44,0.47,-0.1,1.024,-4.5993",
+}
+
 func pmOf(def string) float64 {
 	for _, f := range strings.Fields(def) {
 		if strings.HasPrefix(f, "+pm=") {
@@ -319,6 +440,12 @@ func corpus(w *bufio.Writer) {
 	put(trLine([]string{"+proj=longlat +datum=potsdam", "+proj=tmerc +lat_0=0 +lon_0=9 +k=1 +x_0=3500000 +y_0=0 +datum=potsdam +units=m", "+proj=lcc +lat_1=49 +lat_2=44 +lat_0=46.5 +lon_0=3 +x_0=700000 +y_0=6600000 +ellps=GRS80 +towgs84=10,-20,30 +units=m", wgs}, 9.5, 50))
 	put(trLine([]string{"+proj=longlat +datum=osgb36", "+proj=longlat +datum=ire65"}, -6, 54))
 	put(trLine([]string{"+proj=longlat +datum=nzgd49", "+proj=utm +zone=59 +south +datum=potsdam"}, 172, -41))
+	// pairs identical in everything but the towgs84 VALUES (the Equal shortcut must not fire)
+	put(trLine([]string{"+proj=longlat +ellps=bessel +towgs84=598.1,73.7,418.2", "+proj=longlat +ellps=bessel +towgs84=653,-212,449"}, 11, 48))
+	put(trLine([]string{"+proj=longlat +ellps=bessel +towgs84=598.1,73.7,418.2,0.202,0.045,-2.455,6.7", "+proj=longlat +ellps=bessel +towgs84=598.1,73.7,418.2,0.202,0.045,-2.455,6.8"}, 11, 48))
+	put(trLine([]string{"+proj=longlat +ellps=bessel +towgs84=598.1,73.7,418.2", "+proj=tmerc +lat_0=0 +lon_0=9 +k=1 +x_0=3500000 +y_0=0 +ellps=bessel +towgs84=598.1,73.7,418.2 +units=m", "+proj=tmerc +lat_0=0 +lon_0=9 +k=1 +x_0=3500000 +y_0=0 +ellps=bessel +towgs84=653,-212,449 +units=m", "+proj=longlat +ellps=bessel +towgs84=653,-212,449"}, 9.5, 50))
+	put(trLine([]string{"+proj=longlat +datum=potsdam", "+proj=longlat +ellps=bessel +towgs84=607.0,23.0,413.0"}, 9.5, 50))
+	put(trLine([]string{"+proj=longlat +a=6377397.155 +b=6356078.963 +towgs84=598.1,73.7,418.2", "+proj=longlat +a=6377398.155 +b=6356078.963 +towgs84=598.1,73.7,418.2"}, 9.5, 50))
 	// units
 	put(trLine([]string{wgs, "+proj=lcc +lat_1=34.03333333333333 +lat_2=35.46666666666667 +lat_0=33.5 +lon_0=-118 +x_0=2000000.0001016 +y_0=500000.0001016001 +datum=NAD83 +units=us-ft +no_defs", "+proj=aea +lat_1=29.5 +lat_2=45.5 +lat_0=23 +lon_0=-96 +x_0=0 +y_0=0 +datum=NAD83 +units=ft", wgs}, -117.5, 34.2))
 	// datum-less against a geographic system on the same ellipsoid
@@ -409,6 +536,25 @@ func gen(seed uint64, tier string) {
 			defs = []string{g0, genSR(r, pick(), f, lonG, latG), genSR(r, "longlat", f, lonG, latG)}
 		default:
 			defs = []string{g0, genSR(r, pick(), f, lonG, latG), genSR(r, pick(), f, lonG, latG), genSR(r, "longlat", f, lonG, latG)}
+		}
+		// every fourth chain probes the Equal shortcut: one system is followed by its twin that
+		// differs in exactly one field (most often only in the towgs84 values)
+		if i%4 == 0 {
+			k := 0
+			if len(defs) > 2 {
+				k = 1 + r.Intn(len(defs)-2)
+			} else if r.Bool() {
+				k = 1
+			}
+			if t, what := twin(r, defs[k], f.nodatum); what != "" {
+				nd := append([]string{}, defs[:k+1]...)
+				nd = append(nd, t)
+				nd = append(nd, defs[k+1:]...)
+				if len(nd) > 4 {
+					nd = append(nd[:k+2], nd[len(nd)-1])
+				}
+				defs = nd
+			}
 		}
 		x := wrap180(lonG - pmOf(g0))
 		fmt.Fprintln(w, trLine(defs, x, latG))
